@@ -11,6 +11,19 @@ chk("C16", "exploration", "exhaustive input-space enumeration against exact-arit
     "Trusted: the formula transcription in c16.rs (AN1200.13 / SX127x datasheet, CRC on) and rustc integer semantics.",
     "DESIGN.md §3 C16")
 
+chk("C01", "exploration", "exhaustive enumeration of frame descriptions vs independent reference encoder",
+    "Four full cartesian sub-products of frame descriptions (header flags x FOpts length x payload kind; every payload length 0..242 x counters x keys x contents; all 65536 DevNonce; all 256 DLSettings x RxDelay x CFList) are built with the real builders under both software crypto variants and compared byte for byte with an independent LoRaWAN 1.0.x encoder on an independent AES/CMAC; forbidden descriptions must be refused. The space is finite once the alphabets are fixed and is enumerated completely.",
+    "Trusted: refcodec.rs/refcrypto.rs (self-tested against FIPS-197, SP 800-38A, RFC 4493 at start-up). Keys/addresses/contents outside the alphabets are argued by absence of value-dependent branches.",
+    "DESIGN.md §3 C01")
+chk("C02", "model_checking", "explicit-state search over frame mutations executed on the real parser, reference codec as oracle",
+    "States are byte strings; from every built root frame every single mutation (depth 2 in thorough: every pair) of an alphabet of bit flips, FOptsLen rewrites, truncations and appends is applied, and each state is presented to parse / validate_mic / check_mic_and_decrypt_in_place / decrypt_in_place under right, swapped and wrong keys and five counter hints. The reference decides authenticity and the decode; failure must leave the buffer byte-identical; roots must round-trip. Plus every byte string of length 0..3 through the classifier.",
+    "Trusted: refcodec.rs/refcrypto.rs. Plaintext compared only when the caller's counter hint agrees with the wire half. Strings that are neither short nor within 2 mutations of a built frame are not covered.",
+    "DESIGN.md §3 C02")
+chk("C03", "model_checking", "exhaustive append-a-byte tree and truncation grids on the real parsers and MAC-command iterators",
+    "The complete tree of byte strings up to depth 3 is fed to every frame parser and to each of the six MAC-command iterators; on top, MHDR x FCtrl x length 0..40 layout grid and every CID x every truncation point x embedding before/after every defined command, and every status/length of variable-length commands. Oracle: no unwind, iterator yields whole commands that are consecutive prefixes, one error at most then fused, bounded number of next() calls, every accessor callable.",
+    "Trusted: the framing table in c03.rs (spec lengths per CID). Longer strings off the grids are not covered; coverage-guided mutation (sampling) is deliberately not used.",
+    "DESIGN.md §3 C03")
+
 ALL = ["C%02d" % i for i in range(1, 21)]
 NA_REASON = "check not built yet in this round; see DESIGN.md for the planned bounded exploration"
 
